@@ -4,6 +4,7 @@ package harness
 
 import (
 	"fmt"
+	"github.com/gammazero/nexus/v3/wamp"
 	"time"
 
 	"pgregory.net/rapid"
@@ -26,6 +27,32 @@ func init() {
 				h := newHistoryPart(w, b, bubbleEpoch)
 				return []Part{b, d, h}
 			})
+			// In-process subscribers own the EVENT they were handed and may rewrite it. Every
+			// step's deliveries to in-process sessions are rewritten at the top level (first
+			// argument, one keyword argument, one detail) after they have been judged: the
+			// retained history must keep the original publication.
+			o.afterStep = func(e *Engine, st *StepRec) *Violation {
+				for k, ms := range st.Recv {
+					if k >= len(o.w.sess) || !o.w.sess[k].local {
+						continue
+					}
+					for _, m := range ms {
+						if x, ok := m.(*wamp.Event); ok && !isMetaEvent(x) {
+							if len(x.Arguments) > 0 {
+								x.Arguments[0] = "rewritten by a subscriber"
+							}
+							if x.ArgumentsKw != nil {
+								x.ArgumentsKw["verif_rewritten"] = true
+							}
+							if x.Details != nil {
+								x.Details["verif_rewritten"] = k
+							}
+							o.st.Label("local_subscriber_rewrote_event")
+						}
+					}
+				}
+				return nil
+			}
 			o.finishStats = func(st *CaseStats) {
 				st.NonTrivial = st.Labels["history_query_after_wrap"] > 0 || (st.Labels["history_query"] > 0 && (st.Labels["ended_with_subscription"] > 0 || st.Labels["unsubscribe_own"] > 0))
 			}
@@ -42,14 +69,14 @@ func init() {
 var bubbleEpoch = time.Date(2000, 1, 1, 0, 0, 0, 0, time.UTC)
 
 type c20Gen struct {
-	nsess  int
-	hist   []HistCfg
-	clock  int // virtual seconds elapsed
-	npub   int // acknowledged publications so far (index into "pub:n")
-	pubAt  []int
+	nsess    int
+	hist     []HistCfg
+	clock    int // virtual seconds elapsed
+	npub     int // acknowledged publications so far (index into "pub:n")
+	pubAt    []int
 	pubTopic []string // topic of publication n ("" when it carried a receiver restriction)
-	nsubs  map[int]int
-	gone   map[int]bool // sessions that have left (their later operations are not sent)
+	nsubs    map[int]int
+	gone     map[int]bool // sessions that have left (their later operations are not sent)
 }
 
 func (g *c20Gen) histTopic(t *rapid.T) string {
